@@ -3,7 +3,7 @@
    Model: coq/Model/Encap.v (common/encapsulation/encapsulation.go after the fix: commit
    "fix: read encapsulation length prefix bytes with io.ReadFull"). *)
 From Coq Require Import List NArith Bool Arith Lia.
-From Snow Require Import Lib.Wire Model.Encap Model.EncapFail Model.EncapPad Proofs.EncapSweep Proofs.EncapProofs Proofs.EncapFailProofs Proofs.EncapPadProofs.
+From Snow Require Import Lib.Wire Model.Encap Model.EncapFail Model.EncapPad Model.EncapServer Proofs.EncapSweep Proofs.EncapProofs Proofs.EncapFailProofs Proofs.EncapPadProofs Proofs.EncapServerProofs.
 Import ListNotations.
 Open Scope N_scope.
 
@@ -125,6 +125,30 @@ Proof. exact padding_large_batch_zero_fill. Qed.
 Theorem C09_budget : forall n d, 0 < n -> blen d = max_data_for_size n ->
   exists w, write_data d = Some w /\ N.of_nat (length w) <= n.
 Proof. exact budget_respected. Qed.
+
+(* The streams feeding ReadData on the server (server/lib/http.go, Model/EncapServer.v): the 8-byte token and the 8-byte
+   ClientID are read by io.ReadFull from the SAME reader that ReadData then reads from, nothing buffers ahead in
+   between, so the chunk stream starts exactly at offset 16 of the carrier's bytes for EVERY reader script - also when
+   the read that completes the preamble already carries the first chunk bytes (coalesced messages). *)
+Theorem C09_stream_after_preamble : forall tok cid s sc,
+  length tok = TOKEN_LEN -> length cid = CLIENTID_LEN ->
+  server_read (tok ++ cid ++ s) sc = SOk tok cid (fst (decode_stream s)) (snd (decode_stream s)).
+Proof. exact stream_after_preamble. Qed.
+Theorem C09_server_roundtrip : forall tok cid items s sc,
+  length tok = TOKEN_LEN -> length cid = CLIENTID_LEN ->
+  items_ok items -> encode_items items = Some s ->
+  server_read (tok ++ cid ++ s) sc = SOk tok cid (datas items) EOF.
+Proof. exact server_roundtrip. Qed.
+Theorem C09_server_short_preamble : forall s sc, (length s < TOKEN_LEN + CLIENTID_LEN)%nat ->
+  exists e, server_read s sc = SShort e.
+Proof. exact server_short_preamble. Qed.
+Example C09_server_roundtrip_example :
+  let tok := [1; 2; 3; 4; 5; 6; 7; 8] in let cid := [9; 9; 9; 9; 9; 9; 9; 9] in
+  length tok = TOKEN_LEN /\ length cid = CLIENTID_LEN /\ items_ok [Data [65; 66]; Pad 3; Data []] /\
+  (* one read delivers the whole preamble together with the first chunk's prefix and one body byte *)
+  server_read (tok ++ cid ++ [130; 65; 66; 2; 0; 0; 128]) [(18%nat, false); (0%nat, false); (1%nat, false)]
+    = SOk tok cid [[65; 66]; []] EOF.
+Proof. cbv zeta. repeat split. Qed.
 
 (* A reader that FAILS (returns a non-EOF error, alone or with its last bytes, after delivering the bytes s
    under any fragmentation): the chunks returned before the failure are exactly the whole data chunks of s,
